@@ -962,6 +962,23 @@ def recursion_by_whole_location(repo: Repo, res: CheckResult) -> None:
                                 getattr(key, "lineno", fn.lineno)))
             elif k not in whole:
                 raise AnalysisError(f"{ci.name}.{mname}: cannot tell what the stub table key `{k}` is")
+    # the decision "this is the first occurrence" consults the resolver's OWN record of the requests it is processing: the stack
+    # of a request that reaches a retort used as a provider begins with locations another retort's buses are processing; a stub
+    # issued for an occurrence this resolver never saw is bound by nobody (TypeError: 'NoneType' object is not callable at load)
+    fn = ci.methods["track_request"]
+    firsts = [i for i in ast.walk(fn) if isinstance(i, ast.If) and any(isinstance(x, ast.Return) and (x.value is None or norm(x.value) == "None")
+                                                                      for x in i.body)]
+    res.evaluated("recursion:first-occurrence-decision", True)
+    if len(firsts) != 1:
+        raise AnalysisError("LocatedRequestCallableRecursionResolver.track_request: expected one first-occurrence decision (an if that returns None)")
+    own_state = any(isinstance(a, ast.Attribute) and norm(a.value) == "self" for a in ast.walk(firsts[0].test))
+    if not own_state:
+        res.add(Finding("C09", "RECURSION.stub-for-untracked-occurrence", m.rel, f"{ci.name}.track_request", norm(firsts[0].test)[:120],
+                        f"`{norm(firsts[0].test)[:100]}` decides from the location stack alone whether an earlier request for this location "
+                        "is in flight. A retort placed in a recipe receives requests whose stack begins with locations the OUTER retort "
+                        "is processing: for `bound(P[List].generic_arg(0, Node), inner)` and a recursive Node the inner resolver meets "
+                        "`children` for the first time, counts two occurrences and hands out a stub nobody binds; the loader it serves "
+                        "calls None. The resolver has to keep its own record of the locations it tracks", firsts[0].lineno))
     res.count("RECURSION.location-uses", n, 4)
 
 
